@@ -30,11 +30,27 @@ def shipped_modules():
 
 
 class Built:
-    def __init__(self, mod, tags, desc, pool=None):
+    def __init__(self, mod, tags, desc, pool=None, imports=None):
         self.mod = mod
         self.tags = tags
         self.desc = desc
         self.pool = pool or []   # every (thunk, description) built, not only the claimed ones
+        # the generator's OWN record of who imported whom, in order (id(module) -> [imported modules]); None for modules it did not assemble
+        self.imports = imports
+
+    def declared_axioms(self):
+        """axioms the module declares, imported modules first (in import order, recursively), by the generator's own record of the
+        import calls - not by the toolkit's bookkeeping of them"""
+        if self.imports is None:
+            return None
+
+        def walk(m):
+            out = []
+            for c in self.imports.get(id(m), []):
+                out.extend(walk(c))
+            out.extend(m.get_axioms())
+            return out
+        return walk(self.mod)
 
 
 def arg_pattern(rng, depth=1, meta=0.4, notation=0.3, syms=SYMS):
@@ -147,6 +163,7 @@ def random_module(rng: random.Random, max_claims=6, with_imports=True, syms=SYMS
     tags = set()
     mod = PR.ProofExp()
     prop = mod.import_module(Prop())
+    imports = {id(mod): [prop]}      # own record of the import calls
     desc = []
     # import graph: optional extra submodules with axioms sharing symbols (incl. a diamond)
     subs = []
@@ -154,10 +171,12 @@ def random_module(rng: random.Random, max_claims=6, with_imports=True, syms=SYMS
         shared = PR.ProofExp(axioms=[pat(rng, 1, 0.0, 0.2, syms)])
         a = PR.ProofExp(axioms=[pat(rng, 1, 0.0, 0.2, syms)])
         a.import_module(shared)
+        imports[id(a)] = [shared]
         subs.append(a)
         if rng.random() < 0.5:
             b = PR.ProofExp(axioms=[pat(rng, 1, 0.2, 0.2, syms)])
             b.import_module(shared)      # diamond: `shared` is reachable twice
+            imports[id(b)] = [shared]
             subs.append(b)
             tags.add('import_diamond')
         if rng.random() < 0.4:
@@ -165,14 +184,23 @@ def random_module(rng: random.Random, max_claims=6, with_imports=True, syms=SYMS
             leaf = PR.ProofExp(axioms=[pat(rng, 1, 0.0, 0.2, syms)])
             middle = PR.ProofExp()
             middle.import_module(leaf)
+            imports[id(middle)] = [leaf]
             subs.append(middle)
             tags.add('import_chain_through_axiomless_module')
         for s in subs:
             mod.import_module(s)
+            imports[id(mod)].append(s)
+        if subs and rng.random() < 0.25:
+            # the same module object asked for a second time by the same importer (two components each import their dependency)
+            again = rng.choice(subs)
+            mod.import_module(again)
+            imports[id(mod)].append(again)
+            tags.add('same_module_imported_twice_by_one_importer')
         if rng.random() < 0.3:
             # a module that is still empty when it is imported and receives its axioms afterwards
             late = PR.ProofExp()
             mod.import_module(late)
+            imports[id(mod)].append(late)
             for _ in range(rng.randint(1, 2)):
                 late.add_axiom(pat(rng, 1, 0.0, 0.2, syms))
             subs.append(late)
@@ -450,7 +478,7 @@ def random_module(rng: random.Random, max_claims=6, with_imports=True, syms=SYMS
         mod.add_proof_expression(chosen[i_][0])
     if len(chosen) >= 2:
         tags.add('claims>=2')
-    return Built(mod, tags, desc, pool)
+    return Built(mod, tags, desc, pool, imports)
 
 
 def nested_axioms_module(rng: random.Random, syms=SYMS) -> Built:
